@@ -62,9 +62,48 @@ var authPart = pbt.Part[authCase]{Name: "denied-fields-never-reach-client", Quic
 		c := authCase{Layout: l, Seed: rapid.Uint64Range(1, 1<<20).Draw(t, "useed"),
 			Op:   opgen.Gen(t, super, opgen.Options{Mutations: !deferred, Defer: deferred, NoDeferLabels: true, UniqueKeys: deferred, Allow: allowFromEnv(), MaxDepth: 6, Budget: 30}),
 			Mode: rapid.SampledFrom([]string{"post", "pre"}).Draw(t, "mode")}
+		// two of three protected families are drawn from the coordinates the operation selects
+		fams := families(super)
+		var selectedFams []int
+		if doc, perr := gqlparser.LoadQuery(super, c.Op.Query); perr == nil {
+			sel := map[string]bool{}
+			var walk func(set ast.SelectionSet)
+			walk = func(set ast.SelectionSet) {
+				for _, x := range set {
+					switch y := x.(type) {
+					case *ast.Field:
+						if y.ObjectDefinition != nil && !strings.HasPrefix(y.Name, "__") {
+							sel[y.ObjectDefinition.Name+"."+y.Name] = true
+						}
+						walk(y.SelectionSet)
+					case *ast.InlineFragment:
+						walk(y.SelectionSet)
+					case *ast.FragmentSpread:
+						if y.Definition != nil {
+							walk(y.Definition.SelectionSet)
+						}
+					}
+				}
+			}
+			for _, od := range doc.Operations {
+				walk(od.SelectionSet)
+			}
+			for i, fam := range fams {
+				for _, coord := range fam {
+					if sel[coord] {
+						selectedFams = append(selectedFams, i)
+						break
+					}
+				}
+			}
+		}
 		np := rapid.IntRange(1, 6).Draw(t, "nprotected")
 		for i := 0; i < np; i++ {
-			c.Protected = append(c.Protected, rapid.IntRange(0, 199).Draw(t, "p"))
+			p := rapid.IntRange(0, 199).Draw(t, "p")
+			if len(selectedFams) > 0 && len(fams) <= 200 && rapid.IntRange(0, 2).Draw(t, "psel") > 0 {
+				p = selectedFams[p%len(selectedFams)]
+			}
+			c.Protected = append(c.Protected, p)
 			if rapid.IntRange(0, 3).Draw(t, "deny") != 0 {
 				c.Denied = append(c.Denied, c.Protected[i])
 			}
